@@ -10,7 +10,14 @@
 
 package compiler
 
-import "github.com/open2b/scriggo/ast"
+import (
+	"reflect"
+
+	"github.com/open2b/scriggo/ast"
+	"github.com/open2b/scriggo/internal/runtime"
+)
+
+var _ = reflect.Int
 
 // ---- specification helpers (interpreted by govc) ----
 
@@ -39,6 +46,198 @@ func rangeIndex(n int) int { return 0 }
 func sliceEq(a, b []byte) bool {
 	return len(a) == len(b) && cap(a) == cap(b) && (cap(a) == 0 || &a[:1][0] == &b[:1][0])
 }
+
+// ---------------------------------------------------------------------------
+// builder.go (C20): a limit is reported by a LimitExceededError panic (allowed,
+// it is recovered by emitProgram/emitTemplate), never by a wrapped index.
+// ---------------------------------------------------------------------------
+
+// Encode/decode pairs: what the builder writes into the 8-bit operands is what
+// the VM-side decoder reads back (lemmas: the function returns true for every input).
+
+func lemmaInt16(v int16) bool { a, b := encodeInt16(v); return decodeInt16(a, b) == v }
+
+func lemmaUint16(v uint16) bool { a, b := encodeUint16(v); return decodeUint16(a, b) == v }
+
+func lemmaUint24(v uint32) bool {
+	a, b, c := encodeUint24(v)
+	return v >= 1<<24 || decodeUint24(a, b, c) == v
+}
+
+func lemmaValueIndex(t registerType, i int) bool {
+	a, b := encodeValueIndex(t, i)
+	t2, i2 := decodeValueIndex(a, b)
+	return t < 0 || t > 3 || i < 0 || i >= 1<<14 || (t2 == t && i2 == i)
+}
+
+func lemmaRenderContext(ctx ast.Context, inURL, isURLSet bool) bool {
+	c2, u2, s2 := decodeRenderContext(encodeRenderContext(ctx, inURL, isURLSet))
+	return ctx < 0 || ctx > 15 || (c2 == ctx && u2 == inURL && s2 == (inURL && isURLSet))
+}
+
+// The compiler's and the runtime's copies of decodeRenderContext agree.
+func lemmaRenderContextCopies(c runtime.Context) bool {
+	a1, b1, c1 := decodeRenderContext(c)
+	a2, b2, c2 := runtime.VerifDecodeRenderContext(c)
+	return a1 == a2 && b1 == b2 && c1 == c2
+}
+
+// An index below 256 stored as int8 is read back by the VM as uint8.
+func lemmaIndex8(r int) bool { return r < 0 || r > 255 || int(uint8(int8(r))) == r }
+
+//@ func lemmaInt16
+//@   props C20
+//@   mode bv
+//@   ensures result
+
+//@ func lemmaUint16
+//@   props C20
+//@   mode bv
+//@   ensures result
+
+//@ func lemmaUint24
+//@   props C20
+//@   mode bv
+//@   ensures result
+
+//@ func lemmaValueIndex
+//@   props C20
+//@   mode bv
+//@   ensures result
+
+//@ func lemmaRenderContext
+//@   props C20 C06
+//@   mode bv
+//@   ensures result
+
+//@ func lemmaRenderContextCopies
+//@   props C20 C06
+//@   mode bv
+//@   ensures result
+
+//@ func lemmaIndex8
+//@   props C20
+//@   mode bv
+//@   ensures result
+
+// Builder invariant: the function under construction and its declaration
+// position exist (newFunction/newMacro are always given a position), and the
+// register maps are allocated (newBuilder).
+func fbOK(fb *functionBuilder) bool {
+	return fb.fn != nil && fb.fn.Pos != nil && fb.numRegs != nil && fb.maxRegs != nil
+}
+
+// Registers: newRegister hands out 1..127 or panics with the limit error.
+//@ func (*functionBuilder).newRegister
+//@   props C20
+//@   panics allowed
+//@   requires fbOK(fb)
+//@   requires fb.numRegs[kindToType(kind)] >= 0
+//@   ensures 1 <= result && result <= 127
+//@   ensures fb.numRegs[kindToType(kind)] == result && fb.maxRegs[kindToType(kind)] >= result
+
+//@ func (*functionBuilder).allocRegister
+//@   props C20
+//@   requires fbOK(fb)
+//@   ensures fb.maxRegs[typ] >= reg && fb.numRegs[typ] >= reg
+//@   ensures fb.maxRegs[typ] == reg || fb.maxRegs[typ] == old(fb.maxRegs[typ])
+//@   ensures fb.numRegs[typ] == reg || fb.numRegs[typ] == old(fb.numRegs[typ])
+//@   ensures fbOK(fb)
+
+// Tables: the index returned is below the limit, is the position of the value,
+// and the table never grows beyond the limit - or the function panics with the limit error.
+//@ func (*functionBuilder).addType
+//@   props C20
+//@   opt stable functionBuilder github.com/open2b/scriggo/internal/runtime.Function
+//@   panics allowed
+//@   requires fbOK(fb)
+//@   requires len(fb.fn.Types) <= 256
+//@   ensures 0 <= result && result < len(fb.fn.Types) && len(fb.fn.Types) <= 256
+//@   loop 0
+//@     invariant len(fn.Types) <= 256 && fn == fb.fn
+
+//@ func (*functionBuilder).addNativeFunction
+//@   props C20
+//@   panics allowed
+//@   requires fbOK(fb)
+//@   requires len(fb.fn.NativeFunctions) <= 256
+//@   ensures int(uint8(result)) == old(len(fb.fn.NativeFunctions)) && len(fb.fn.NativeFunctions) == old(len(fb.fn.NativeFunctions))+1
+//@   ensures len(fb.fn.NativeFunctions) <= 256
+
+//@ func (*functionBuilder).addFunction
+//@   props C20
+//@   panics allowed
+//@   requires fbOK(fb)
+//@   requires len(fb.fn.Functions) <= 256
+//@   ensures int(uint8(result)) == old(len(fb.fn.Functions)) && len(fb.fn.Functions) == old(len(fb.fn.Functions))+1
+//@   ensures len(fb.fn.Functions) <= 256
+
+//@ func (*functionBuilder).makeStringValue
+//@   props C20
+//@   panics allowed
+//@   requires fbOK(fb)
+//@   requires len(fb.fn.Values.String) <= 256
+//@   ensures int(uint8(result)) < len(fb.fn.Values.String) && len(fb.fn.Values.String) <= 256
+//@   loop 0
+//@     invariant len(fb.fn.Values.String) <= 256
+
+//@ func (*functionBuilder).makeGeneralValue
+//@   props C20
+//@   opt stable functionBuilder github.com/open2b/scriggo/internal/runtime.Function
+//@   panics allowed
+//@   requires fbOK(fb)
+//@   requires len(fb.fn.Values.General) <= 256
+//@   ensures int(uint8(result)) < len(fb.fn.Values.General) && len(fb.fn.Values.General) <= 256
+//@   loop 0
+//@     invariant len(fb.fn.Values.General) <= 256
+//@   loop 1
+//@     invariant len(fb.fn.Values.General) <= 256
+//@   loop 2
+//@     invariant len(fb.fn.Values.General) <= 256
+
+//@ func (*functionBuilder).makeFloatValue
+//@   props C20
+//@   panics allowed
+//@   requires fbOK(fb)
+//@   requires len(fb.fn.Values.Float) <= 16384
+//@   ensures 0 <= result && result < len(fb.fn.Values.Float) && len(fb.fn.Values.Float) <= 16384
+//@   loop 0
+//@     invariant len(fb.fn.Values.Float) <= 16384
+
+//@ func (*functionBuilder).makeIntValue
+//@   props C20
+//@   panics allowed
+//@   requires fbOK(fb)
+//@   requires len(fb.fn.Values.Int) <= 16384
+//@   ensures 0 <= result && result < len(fb.fn.Values.Int) && len(fb.fn.Values.Int) <= 16384
+//@   ensures fb.fn.Values.Int[result] == v
+//@   loop 0
+//@     invariant len(fb.fn.Values.Int) <= 16384
+
+//@ func sameFieldIndex
+//@   props C20
+
+//@ func (*functionBuilder).makeFieldIndex
+//@   props C20
+//@   panics allowed
+//@   requires fbOK(fb)
+//@   requires len(fb.fn.FieldIndexes) <= 256
+//@   ensures int(uint8(result)) < len(fb.fn.FieldIndexes) && len(fb.fn.FieldIndexes) <= 256
+//@   loop 0
+//@     invariant len(fb.fn.FieldIndexes) <= 256
+
+//@ func (*functionBuilder).exitStack
+//@   props C20
+//@   requires len(fb.scopeShifts) > 0
+
+// Operand A of the generic arithmetic instructions carries the flattened kind,
+// never Int/Uint/Uintptr/Bool (the VM's kind switch has no arm for those).
+//@ func flattenIntegerKind
+//@   props C20 C01
+//@   ensures result != reflect.Int && result != reflect.Uint && result != reflect.Uintptr && result != reflect.Bool
+//@   ensures k == reflect.Int ==> result == reflect.Int64
+//@   ensures k == reflect.Uint || k == reflect.Uintptr ==> result == reflect.Uint64
+//@   ensures k != reflect.Int && k != reflect.Uint && k != reflect.Uintptr && k != reflect.Bool ==> result == k
 
 // ---------------------------------------------------------------------------
 // lexer.go (C04: no panic, termination; C21: byte offsets)
